@@ -41,9 +41,17 @@
   tokens in the model).  `nw->sem` is the same for all records of a call (`&w->sem`) and is not visible
   when the waiter is taken from the pool: bound lazily at the first semaphore event that names it.
 
-  Ghost: `Rec.unl` (who unlinked the record), `Frame.held / why / deqRes / mallocs / frees`,
-  `State.f3` (set when cv_dequeue ran inside the window of defect F3: record already unlinked by a
-  signaller whose `waiting := 0` store is still to come).  The model FOLLOWS the code there.
+  cv_dequeue (cv.c, after the repair of defect F3): `waiting != 0` under the spinlock does not imply that
+  the record is still on pcv->waiters (a signaller unlinks under the spinlock and clears `waiting` after
+  dropping it), so the code walks pcv->waiters (plain accesses under the spinlock, no logged event; the
+  outcome is visible in the next atomic: `ATM_STORE (&nw->waiting, 0)` = found and removed, or the release
+  store of the spinlock = not found).  Not found: after releasing the spinlock it loops on
+  `ATM_LOAD_ACQ (&nw->waiting)` until the waker has cleared the field (`CvDeqSt.wspin`) and returns 0.
+  The model checks the outcome of the walk against the queue at that event (the queue cannot change in
+  between: the caller holds the spinlock).  wake_waiters reads `p_nw->sem` BEFORE its
+  `ATM_STORE_REL (&p_nw->waiting, 0)`: the V of a cv signaller does not touch the record (`touches`).
+
+  Ghost: `Rec.unl` (who unlinked the record), `Frame.held / why / deqRes / deqUnl / mallocs / frees`.
 -/
 namespace WaitN
 
@@ -140,7 +148,7 @@ inductive CvEnqSt | spin (sp : SpinSt) | store | release
   deriving DecidableEq, Repr
 
 /-- cv_dequeue -/
-inductive CvDeqSt | spin (sp : SpinSt) | load | store | release (res : Bool)
+inductive CvDeqSt | spin (sp : SpinSt) | load | store | release (res : Bool) | wspin
   deriving DecidableEq, Repr
 
 /-- note_dequeue (after its nsync_note_notified_deadline_ call) / counter_dequeue;
@@ -218,6 +226,7 @@ structure Frame where
   held : Bool                -- ghost: the supplied mutex is held
   why : Why                  -- ghost: why the sleep loop was left / skipped
   deqRes : List Bool         -- ghost: results of the dequeue calls so far
+  deqUnl : List Unl          -- ghost: `unl` of the record at the return of its dequeue call
   mallocs : Nat
   frees : Nat
   deriving Repr
@@ -226,7 +235,7 @@ def Frame.count (f : Frame) : Nat := f.objs.length
 
 def Frame.empty : Frame :=
   { mu := none, dl := none, objs := [], nested := false, recs := [], heap := none, sem := none, freed := false, ready := 0,
-    min := none, who := none, unlocked := false, held := false, why := .none, deqRes := [], mallocs := 0,
+    min := none, who := none, unlocked := false, held := false, why := .none, deqRes := [], deqUnl := [], mallocs := 0,
     frees := 0 }
 
 /-- the frame at the entry of nsync_wait_n -/
@@ -244,7 +253,6 @@ structure State where
   mc : Tid → MC
   post : Tid → Option Rid
   now : Nat
-  f3 : Bool
 
 def Obj.init (o : ObjId) : Obj :=
   { known := o.isCv, lock := none, queue := [], flag := false, value := 0, expiry := none }
@@ -253,7 +261,7 @@ def init : State :=
   { obj := Obj.init,
     rcd := fun _ => { live := false, waiting := false, owner := 0, obj := .cv 0, unl := .none, deqd := false },
     sem := fun _ => 0, semUser := fun _ => none, pc := fun _ => .idle, fr := fun _ => Frame.empty,
-    mc := fun _ => .none, post := fun _ => none, now := 0, f3 := false }
+    mc := fun _ => .none, post := fun _ => none, now := 0 }
 
 def State.setObj (s : State) (o : ObjId) (v : Obj) : State :=
   { s with obj := fun i => if i = o then v else s.obj i }
@@ -402,7 +410,9 @@ def rtDone (s : State) (t : Tid) (u : Use) (i : Nat) (time : Deadline) : R :=
 /-- a `dequeue` call on object `j` returned `res` (true = was still enqueued) -/
 def deqDone (s : State) (t : Tid) (j : Nat) (res : Bool) : R :=
   let f := s.fr t
-  let f' : Frame := { f with ready := if !res ∧ f.ready = f.count then j else f.ready, deqRes := f.deqRes ++ [res] }
+  let u : Unl := match f.recs[j]? with | some r => (s.rcd r).unl | none => .none
+  let f' : Frame := { f with ready := if !res ∧ f.ready = f.count then j else f.ready, deqRes := f.deqRes ++ [res],
+                             deqUnl := f.deqUnl ++ [u] }
   if j + 1 < f'.recs.length then .ok ((s.setFr t f').setPc t (deqNext f' (j + 1)))
   else
     let s1 := unbindSem (s.setFr t f') t
@@ -532,12 +542,12 @@ def stepSg (s : State) (t : Tid) (c : Nat) (bc : Bool) (st : SgSt) (e : Ev) : R 
   | .wake l =>
     match s.post t, l, e with
     | none, r :: _, .st .rel (.waiting r') .wake new obs =>
-      -- wake_waiters: ATM_STORE_REL (&p_nw->waiting, 0).  The record may be dead (defect F3).
+      -- wake_waiters: `p_sem = p_nw->sem; … ATM_STORE_REL (&p_nw->waiting, 0)` (the record is live: C13)
       if r' = r ∧ new = 0 ∧ ((s.rcd r).live → obs = b2n (s.rcd r).waiting) then
         .ok ((s.setRec r { s.rcd r with waiting := false }).setPost t (some r))
       else reject "wake_waiters: wrong store"
     | some r, _ :: rest, .semV j =>
-      -- nsync_mu_semaphore_v (p_nw->sem): reads the semaphore pointer from the record
+      -- nsync_mu_semaphore_v (p_sem): the pointer was copied before the store above; the record may be dead
       match postSem s r j with
       | some s' => .ok (((s'.setSem j (s'.sem j + 1)).setPost t none).setPc t (.sg c bc (if rest = [] then .ret else .wake rest)))
       | none => reject "sem v: not the semaphore of the record's call"
@@ -768,13 +778,18 @@ def stepDeqCv (s : State) (t : Tid) (j : Nat) (st : CvDeqSt) (e : Ev) : R :=
         else reject "cv_dequeue: wrong load"
       | e => dflt s t e
     | .store =>
+      -- `waiting != 0` was read: the walk over pcv->waiters either finds `&nw->q` (remove, store) …
       match e with
       | .st .rlx (.waiting r') .cvDeq new obs =>
-        if r' = r ∧ new = 0 ∧ obs = b2n (s.rcd r).waiting ∧ o.lock = some t then
-          -- defect F3: `waiting != 0` does not imply that the record is still in pcv->waiters
-          let s1 := ownerRemove s (.cv c) r
-          .ok ({ s1 with f3 := s.f3 || !(o.queue.contains r) }.setPc t (.wDeqCv j (.release true)))
-        else reject "cv_dequeue: wrong store"
+        if r' = r ∧ new = 0 ∧ obs = b2n (s.rcd r).waiting ∧ o.lock = some t ∧ o.queue.contains r then
+          .ok ((ownerRemove s (.cv c) r).setPc t (.wDeqCv j (.release true)))
+        else reject "cv_dequeue: wrong store, or removal of a record that is not on pcv->waiters"
+      -- … or does not (a signaller has unlinked it): release the spinlock, then wait for `waiting == 0`
+      | .st .rel (.cvWord c') .cvDeq new obs =>
+        let fl := o.flag && !o.queue.isEmpty
+        if c' = c ∧ o.lock = some t ∧ obs = cvWord o ∧ new = 2 * b2n fl ∧ !(o.queue.contains r) then
+          .ok ((s.setObj (.cv c) { o with lock := none, flag := fl }).setPc t (.wDeqCv j .wspin))
+        else reject "cv_dequeue: wrong release store, or a record still on pcv->waiters was not removed"
       | e => dflt s t e
     | .release res =>
       match e with
@@ -783,6 +798,14 @@ def stepDeqCv (s : State) (t : Tid) (j : Nat) (st : CvDeqSt) (e : Ev) : R :=
         if c' = c ∧ o.lock = some t ∧ obs = cvWord o ∧ new = 2 * b2n fl then
           deqDone ((s.setObj (.cv c) { o with lock := none, flag := fl }).setRec r { s.rcd r with deqd := true }) t j res
         else reject "cv_dequeue: wrong release store"
+      | e => dflt s t e
+    | .wspin =>
+      -- `while (ATM_LOAD_ACQ (&nw->waiting) != 0) attempts = nsync_spin_delay_ (attempts);`
+      match e with
+      | .ld .acq (.waiting r') .cvDeq obs =>
+        if r' = r ∧ obs = b2n (s.rcd r).waiting then
+          if obs = 0 then deqDone (s.setRec r { s.rcd r with deqd := true }) t j false else .ok s
+        else reject "cv_dequeue: wrong load in the wait loop"
       | e => dflt s t e
   | _, _ => reject "internal: not a cv / no record"
 
@@ -1007,11 +1030,16 @@ def final (evs : List Event) : Option State :=
 
 def accepts (evs : List Event) : Bool := (final evs).isSome
 
-/-- the records event `e` of thread `t` accesses in state `s` (the V of a waker reads `nw->sem`) -/
+/-- the records event `e` of thread `t` accesses in state `s`.  The V of a note / counter waker reads
+    `nw->sem` (under the object's mutex); wake_waiters of cv.c has copied `p_nw->sem` before its store to
+    `waiting` (that read belongs to the store's step), so the V of a cv signaller touches no record. -/
 def touches (s : State) (t : Tid) (e : Ev) (r : Rid) : Prop :=
   match e with
   | .ld _ (.waiting r') _ _ | .st _ (.waiting r') _ _ _ | .cas _ (.waiting r') _ _ _ _ _ => r' = r
-  | .semV _ => s.post t = some r
+  | .semV _ =>
+    match s.pc t with
+    | .sg _ _ _ => False
+    | _ => s.post t = some r
   | _ => False
 
 /-- the record's frame is alive and initialised -/
